@@ -523,6 +523,7 @@ pub struct Snap {
     pub paused: bool,
     pub timeout_ms: i64,
     pub sock_backoff: Vec<bool>,
+    pub sock_expired: Vec<bool>,
     pub wq: Vec<String>,
     pub counter: Vec<i64>,
     pub chan: Vec<i64>,
@@ -1012,6 +1013,16 @@ impl Sim {
     /// point of the given kind within this iteration ("accepted", "sent", "inc"). Returns the number of
     /// anchored actions whose yield point was never reached (they are applied after the iteration).
     pub fn iterate(&mut self, anchored: Vec<(String, usize, Act)>) -> usize {
+        self.iterate_opt(anchored, true)
+    }
+
+    /// An iteration WITHOUT the bare wake: the real `poll` blocks until an event or its own (real-time) timeout.
+    /// Only call it when the accept loop has a poll timeout set (at most 510 ms), otherwise it would block forever.
+    pub fn iterate_let_poll_time_out(&mut self) -> usize {
+        self.iterate_opt(vec![], false)
+    }
+
+    fn iterate_opt(&mut self, anchored: Vec<(String, usize, Act)>, bare_wake: bool) -> usize {
         if self.exited || self.panicked.is_some() {
             return 0;
         }
@@ -1021,8 +1032,10 @@ impl Sim {
             e.point_counts.clear();
             e.turns = 0;
             // bare wake: the poll below must never block
-            let (waker, _) = &*e.wq;
-            waker.wake().expect("bare wake");
+            if bare_wake {
+                let (waker, _) = &*e.wq;
+                waker.wake().expect("bare wake");
+            }
         }
         let env = self.env.clone();
         POINT_CB.with(|c| {
@@ -1112,6 +1125,7 @@ impl Sim {
             paused: a.paused,
             timeout_ms: a.timeout_ms,
             sock_backoff: a.sock_backoff,
+            sock_expired: a.sock_expired,
             wq,
             exited: self.exited,
             panicked: self.panicked.clone().unwrap_or_default(),
